@@ -104,6 +104,14 @@ func genElem(t *rapid.T, d *domain, typ string, hostile bool) Elem {
 	if !hostile {
 		return e
 	}
+	if ti := d.info(e); (ti.kind == kString || ti.kind == kACLName) && rapid.IntRange(0, 3).Draw(t, "term") == 0 {
+		// a string element of the right size whose body does not end in NUL
+		e.Term = rapid.SampledFrom([]string{"none", "inner", "inner"}).Draw(t, "termkind")
+		if e.N < 2 {
+			e.N = 2 + int(e.Seed%9)
+		}
+		return e
+	}
 	e.SK = rapid.SampledFrom(sizeKindsDrawn).Draw(t, "sk")
 	// A repeated 1 GiB allocation is not lazily mapped any more (the runtime clears reused
 	// address space: ~0.7 s and 1-2 GiB resident per process), so 2^30 is drawn very rarely and
@@ -552,7 +560,7 @@ var requiredClasses = func() []string {
 		"archive:struct:reference-accepts", "archive:struct:reference-refuses",
 		"index:decreasing-offset:huge-header-max", "index:decreasing-offset:normal-header-max", "index:oversize-chunk", "index:equal-offset:huge-header-max",
 		"index:zero-offset", "index:table-size", "index:tail", "index:tail-unchecked-field", "body:shorter", "body:longer", "body:natural",
-		"known-malformed", "malformed:size", "malformed:trunc", "outcome:error", "outcome:accepted"}
+		"known-malformed", "malformed:size", "malformed:trunc", "malformed:unterminated", "outcome:error", "outcome:accepted"}
 	for _, t := range allTargets {
 		req = append(req, "target:"+t)
 	}
